@@ -133,7 +133,8 @@ def main (args : List String) : IO Unit := do
   | "h2f" :: xs => for x in xs do out.putStrLn (hex (h2f (parseHex x)))
   | ["lut", fname, dmin, dmax] =>
     let p := lutParams fname (parseHex dmin) (parseHex dmax)
-    for h in [0:65536] do out.putStrLn (hex (apply p h))
+    let tbl := lutFill p          -- the constructor runs once; `apply p h` is the read `tbl[h]!`
+    for h in [0:65536] do out.putStrLn (hex tbl[h]!)
   | ["arith_eval"] =>
     let lines ← readLines (← IO.getStdin) #[]
     let tbl := h2fTable
